@@ -385,6 +385,48 @@ def random_streams(binary, workdir, tier, seed):
     tdir = os.path.join(workdir, "streams")
     shutil.rmtree(tdir, ignore_errors=True)
     os.makedirs(tdir)
+
+    def one_stream(f, blocks, name):
+        plain, noisy_a, noisy_b, restarts = stream_scripts(blocks, rnd)
+        # the plain replica also reports its state after every step: the export point is chosen among the states IT reaches
+        probe, probe_at = [], []
+        for i, st in enumerate(plain):
+            probe.append(st)
+            if st["op"] in ("block", "blocks"):
+                probe.append({"op": "state"})
+                probe_at.append(i)
+        ra = run_replica(binary, workdir, name + "a", probe, "plain")
+        ba = blocks_of(ra)
+        level = {}
+        for i, stt in zip(probe_at, [r["state"] for r in ra if r["op"] == "state" and r.get("state")]):
+            # open pledge debts / fault reports (2); orders not yet handed over, hand-overs in progress, unbonding stake (1)
+            level[i] = 2 if (stt.get("pdebts") or stt.get("faults")) else \
+                1 if (stt.get("unbond") or stt.get("redel") or any(o.get("status") == 0 for o in stt.get("orders", []))
+                      or any(x.get("status") == 4 for x in stt.get("shards", []))) else 0
+        entry = {"stream": f, "blocks": len(ba), "txs": sum(len(b["txs"]) for b in blocks),
+                 "noise_calls": sum(1 for s in noisy_a + noisy_b if s["op"] in ("simulate", "checktx")),
+                 "restarts": sum(1 for s in restarts if s["op"] == "restart")}
+        if any(r["op"] == "halt" for r in ra):
+            violations.append({"formula": "C02_NoHaltABCI", "detail": "replica halted on stream %s: %s" % (f, [r.get("note") for r in ra if r["op"] == "halt"]), "script": name + "a"})
+        for tag, script, formula in (("n", noisy_a, "C01_Agreement"), ("m", noisy_b, "C01_Agreement"), ("r", restarts, "C03_RestartAgreement")):
+            rb = run_replica(binary, workdir, name + tag, script, "full")
+            d = compare_blocks(ba, blocks_of(rb))
+            entry["agree_" + tag] = d is None
+            if d is not None:
+                violations.append({"formula": formula, "detail": json.dumps({"stream": f, "diff": d})[:600], "script": name + tag})
+            shutil.rmtree(os.path.join(workdir, name + tag, "db"), ignore_errors=True)
+        shutil.rmtree(os.path.join(workdir, name + "a", "db"), ignore_errors=True)
+        # C18 on this stream: export after a random block, start a fresh chain from the export, feed both the rest
+        idx = [i for i, st in enumerate(plain) if st["op"] in ("block", "blocks")]
+        if len(idx) > 4:
+            rich2 = [i for i in idx[2:-1] if level.get(i) == 2]
+            rich = [i for i in idx[2:-1] if level.get(i)]
+            u = rnd.random()
+            cut = rnd.choice(rich2 if rich2 and u < 0.8 else rich if rich and u < 0.9 else idx[2:-1]) + 1
+            entry["export_after_step"] = cut
+            entry["boundary"] = rnd.random() < 0.5
+            violations.extend(export_roundtrip(binary, workdir, name + "x", plain, cut, entry))
+        runs.append(entry)
     try:
         k = 0
         for (profile, n, nev) in STREAM_PLAN[tier]:
@@ -399,32 +441,26 @@ def random_streams(binary, workdir, tier, seed):
                 os.rename(os.path.join(tdir, f), os.path.join(tdir, "used-" + f))
                 if not blocks:
                     continue
-                plain, noisy_a, noisy_b, restarts = stream_scripts(blocks, rnd)
                 name = "S%02d" % k
                 k += 1
-                ra = run_replica(binary, workdir, name + "a", plain, "plain")
-                ba = blocks_of(ra)
-                entry = {"stream": f, "blocks": len(ba), "txs": sum(len(b["txs"]) for b in blocks),
-                         "noise_calls": sum(1 for s in noisy_a + noisy_b if s["op"] in ("simulate", "checktx")),
-                         "restarts": sum(1 for s in restarts if s["op"] == "restart")}
-                if any(r["op"] == "halt" for r in ra):
-                    violations.append({"formula": "C02_NoHaltABCI", "detail": "replica halted on stream %s: %s" % (f, [r.get("note") for r in ra if r["op"] == "halt"]), "script": name + "a"})
-                for tag, script, formula in (("n", noisy_a, "C01_Agreement"), ("m", noisy_b, "C01_Agreement"), ("r", restarts, "C03_RestartAgreement")):
-                    rb = run_replica(binary, workdir, name + tag, script, "full")
-                    d = compare_blocks(ba, blocks_of(rb))
-                    entry["agree_" + tag] = d is None
-                    if d is not None:
-                        violations.append({"formula": formula, "detail": json.dumps({"stream": f, "diff": d})[:600], "script": name + tag})
-                    shutil.rmtree(os.path.join(workdir, name + tag, "db"), ignore_errors=True)
-                shutil.rmtree(os.path.join(workdir, name + "a", "db"), ignore_errors=True)
-                # C18 on this stream: export after a random block, start a fresh chain from the export, feed both the rest
-                idx = [i for i, st in enumerate(plain) if st["op"] in ("block", "blocks")]
-                if len(idx) > 4:
-                    cut = rnd.choice(idx[2:-1]) + 1
-                    entry["export_after_step"] = cut
-                    entry["boundary"] = rnd.random() < 0.5
-                    violations += export_roundtrip(binary, workdir, name + "x", plain, cut, entry)
-                runs.append(entry)
+                one_stream(f, blocks, name)
+        # scripted histories whose state holds what the random streams of the quick tier rarely reach (scenarios/replica_*.json:
+        # arrays of abstract events, default world): an open pledge debt at the moment of export, ...
+        CFG = {}
+        sdir = os.path.join(VERIF, "scenarios")
+        for f in sorted(os.listdir(sdir)) if os.path.isdir(sdir) else []:
+            if f.startswith("replica_") and f.endswith(".json"):
+                blocks, cur = [], []
+                for ev in json.load(open(os.path.join(sdir, f))):
+                    if ev["kind"] == "Blocks":
+                        blocks.append({"txs": cur, "skip": max(0, min(int(ev["n"]) - 1, 30)), "failed_staking": False})
+                        cur = []
+                    else:
+                        cur.append(dict(ev))
+                if cur:
+                    blocks.append({"txs": cur, "skip": 0, "failed_staking": False})
+                one_stream(f, blocks, "S%02d" % k)
+                k += 1
     finally:
         CFG = saved
     return {"streams": runs, "violations": violations}
